@@ -111,8 +111,8 @@ def write_replay(prop, fname, args, note):
     return path
 
 
-def replay(prop, fname, args):
-    p = subprocess.run([PLAIN_PY, '-m', 'vrt.replay', 'harness.%s' % prop, fname, json.dumps(args)],
+def replay(prop, fname, args, witness=False):
+    p = subprocess.run([PLAIN_PY, '-m', 'vrt.replay', 'harness.%s' % prop, fname, json.dumps(args)] + (['--witness'] if witness else []),
                        env=env_for(symbolic=False), cwd=HERE, capture_output=True, text=True, timeout=900)
     return p.returncode, (p.stdout[-3000:] + p.stderr[-1500:])
 
@@ -164,7 +164,7 @@ def main():
         if e.get('status') != 'known':
             continue
         w = e['witness']
-        rc, out = replay(prop, w['obligation'], w['args'])
+        rc, out = replay(prop, w['obligation'], w['args'], witness=True)
         if rc == 1:
             line = "KNOWN-FINDING: property=%s %s [witness %s(%s)]" % (prop, e['what'], w['obligation'], ", ".join(w['args']))
             print(line)
